@@ -28,3 +28,24 @@ package revocation
 //@   ensures [other-bits-unchanged] forall j int :: 0 <= j && j/8 < len(*bs) && j != statusListIndex ==>
 //@           ((((*bs)[j/8] >> (7 - uint8(j%8))) & 1) == ((old((*bs)[j/8]) >> (7 - uint8(j%8))) & 1))
 //@   ensures [same-slice] len(*bs) == old(len(*bs))
+
+// ---- C11: a credential whose status-list bit is set fails verification ----
+
+// ASSUMED: fetching / loading a status list does not modify the credential being verified.
+//@ func (*StatusList2021).statusList
+//@   trusted
+//@   benign
+//@   ensures isNilIface(result.1) ==> result.0 != nil
+
+//@ func (*StatusList2021).Verify
+//@   prop C11 C19
+//@   safety
+//@   call (*StatusList2021).statusList #1 requires [only-revocation-entries-are-looked-up-by-their-own-list]
+//@        status.Type == StatusList2021EntryType && slEntry.StatusPurpose == "revocation" && arg(1) == slEntry.StatusListCredential
+//@   call (*bitstring).bit #1 requires [bit-of-the-named-list-at-the-named-index]
+//@        isNilIface(ret(call (*StatusList2021).statusList #1).1) && sList == ret(call (*StatusList2021).statusList #1).0
+//@     && sList.StatusPurpose == slEntry.StatusPurpose
+//@     && isNilIface(ret(call strconv.Atoi #1).1) && arg(call strconv.Atoi #1, 0) == slEntry.StatusListIndex && arg(1) == ret(call strconv.Atoi #1).0
+//@   ensures [set-bit-means-revoked] did(call (*bitstring).bit #1) && isNilIface(ret(call (*bitstring).bit #1).1) && ret(call (*bitstring).bit #1).0 == true
+//@        ==> result == errRevoked
+//@   ensures [success-only-after-every-entry-was-examined] isNilIface(result) ==> old(credentialToVerify.CredentialStatus) == nil || $done1
